@@ -34,7 +34,7 @@ def Plain (s r : St) : Prop :=
     r.rcalls = s.rcalls ∧ r.scalls = s.scalls
 
 def RecvStep (c : Cfg) (s r : St) : Prop :=
-  ∃ p, r.trace = s.trace ++ [.rpass p s.cursor (runRecv c.recv p s.toFState).2] ∧
+  ∃ p, r.trace = s.trace ++ [.rpass p (startOf s.toFState p) (runRecv c.recv p s.toFState).2] ∧
     r.rcalls = (runRecv c.recv p s.toFState).1.rcalls ∧ r.scalls = s.scalls
 
 def SendStep (c : Cfg) (s r : St) : Prop :=
@@ -312,8 +312,8 @@ theorem step_Ainv (c : Cfg) (s : St) (h : Ainv c s) : Ainv c (step c s) := by
     · rw [ht, flat_append, annotGo_append, h.ann, h.rc, h.sc, p1]
     · rw [ht, flat_append, rcAfter_append, h.rc, p2, hr]
     · rw [ht, flat_append, scAfter_append, h.sc, p3, hs]
-  · obtain ⟨p1, p2, p3⟩ := recvLoop_annot c p (c.recv.drop s.toFState.cursor) s.toFState.cursor s.toFState s.scalls rfl
-    have hfl : flatEv (.rpass p s.cursor (runRecv c.recv p s.toFState).2) = fObs p (runRecv c.recv p s.toFState).2 := rfl
+  · obtain ⟨p1, p2, p3⟩ := recvLoop_annot c p (c.recv.drop (startOf s.toFState p)) (startOf s.toFState p) s.toFState s.scalls rfl
+    have hfl : flatEv (.rpass p (startOf s.toFState p) (runRecv c.recv p s.toFState).2) = fObs p (runRecv c.recv p s.toFState).2 := rfl
     refine ⟨?_, ?_, ?_⟩
     · rw [ht, flat_snoc, annotGo_append, h.ann, h.rc, h.sc, hfl]
       exact congrArg _ p1
